@@ -872,6 +872,36 @@ fn emit<'tcx>(tcx: TyCtxt<'tcx>, out_dir: &str) {
     }
     root.put("mods", J::Arr(mods));
 
+    // re-exports (`pub use common::sparse_by_block_count as probably_sparse`): the name an item is *offered*
+    // under, next to the path it is defined at -- the rules name API functions by the former
+    let mut reex = Vec::new();
+    let mut modids: Vec<LocalDefId> = vec![rustc_hir::def_id::CRATE_DEF_ID];
+    for id in tcx.hir_free_items() {
+        let did = id.owner_id.to_def_id();
+        if matches!(tcx.def_kind(did), DefKind::Mod) {
+            modids.push(id.owner_id.def_id);
+        }
+    }
+    for m in modids {
+        let mpath = if m == rustc_hir::def_id::CRATE_DEF_ID { krate.to_string() } else { defpath(tcx, m.to_def_id()) };
+        for ch in tcx.module_children_local(m) {
+            if ch.reexport_chain.is_empty() {
+                continue;
+            }
+            if let rustc_hir::def::Res::Def(kind, target) = ch.res {
+                if matches!(kind, DefKind::Fn | DefKind::Struct | DefKind::Enum | DefKind::Trait) {
+                    let mut o = J::obj();
+                    o.put("module", J::s(&mpath));
+                    o.put("name", J::s(ch.ident.name.as_str()));
+                    o.put("target", J::s(&defpath(tcx, target)));
+                    o.put("kind", J::s(&format!("{:?}", kind)));
+                    reex.push(o);
+                }
+            }
+        }
+    }
+    root.put("reexports", J::Arr(reex));
+
     let text = root.to_string();
     let path = format!("{}/{}-{}.json", out_dir, krate, ctype);
     let tmp = format!("{}.tmp{}", path, std::process::id());
